@@ -110,3 +110,51 @@ def expand_expr(mod, fn, expr, at_stmt=None, depth=0):
                         if not (isinstance(r.value, ast.Constant) and r.value.value is None):
                             out |= expand_expr(mod, m, r.value, None, depth + 1)
     return out
+
+
+def linear_form(mod, fn, expr, atoms, depth=0):
+    """Linear combination (dict atom-text -> integer coefficient) denoted by an integer expression built from
+    +, -, unary minus, integer constants, the given atoms, single-definition locals and @property attributes.
+    Returns None when the expression is not of that shape."""
+    if depth > 6:
+        return None
+    txt = norm(expr)
+    if txt in atoms:
+        return {txt: 1}
+    if isinstance(expr, ast.Constant) and isinstance(expr.value, int) and not isinstance(expr.value, bool):
+        return {"1": expr.value} if expr.value else {}
+    if isinstance(expr, ast.UnaryOp) and isinstance(expr.op, ast.USub):
+        f = linear_form(mod, fn, expr.operand, atoms, depth + 1)
+        return None if f is None else {k: -v for k, v in f.items()}
+    if isinstance(expr, ast.BinOp) and isinstance(expr.op, (ast.Add, ast.Sub)):
+        a = linear_form(mod, fn, expr.left, atoms, depth + 1)
+        b = linear_form(mod, fn, expr.right, atoms, depth + 1)
+        if a is None or b is None:
+            return None
+        out = dict(a)
+        sign = 1 if isinstance(expr.op, ast.Add) else -1
+        for k, v in b.items():
+            out[k] = out.get(k, 0) + sign * v
+        return {k: v for k, v in out.items() if v}
+    if isinstance(expr, ast.Name):
+        defs = [n for n in walk_no_nested(fn) if isinstance(n, ast.Assign) and len(n.targets) == 1
+                and isinstance(n.targets[0], ast.Name) and n.targets[0].id == expr.id]
+        if len(defs) == 1:
+            return linear_form(mod, fn, defs[0].value, atoms, depth + 1)
+        return None
+    if isinstance(expr, ast.Attribute) and isinstance(expr.value, ast.Name) and expr.value.id == "self":
+        cls = fn
+        while cls is not None and not isinstance(cls, ast.ClassDef):
+            cls = getattr(cls, "_parent", None)
+        if cls is not None:
+            for m in cls.body:
+                if isinstance(m, ast.FunctionDef) and m.name == expr.attr and any(norm(d) == "property" for d in m.decorator_list):
+                    forms = []
+                    for r in [x for x in walk_no_nested(m) if isinstance(x, ast.Return) and x.value is not None]:
+                        if isinstance(r.value, ast.Constant) and r.value.value is None:
+                            continue
+                        forms.append(linear_form(mod, m, r.value, atoms, depth + 1))
+                    if forms and all(f is not None and f == forms[0] for f in forms):
+                        return forms[0]
+        return None
+    return None
